@@ -60,6 +60,7 @@ type scenario struct {
 	dropInHandshake                                                     bool          // after a drop, the server may close the next accepted connection before answering the handshake
 	sequential                                                          int           // further requests issued one after another by caller 0
 	callerDeadline                                                      time.Duration // callers pass a context with their own deadline (later than the client timeout)
+	idleDrops                                                           int           // how many idle connections in a row the server may drop (default 1 when idleDrop is set)
 }
 
 type callResult struct {
@@ -131,7 +132,11 @@ func (w *world) serve(host string, conn *vnet.VConn) {
 			w.answered[string(p.q)] = w.s.Now()
 		}
 	}
-	if w.sc.idleDrop && w.closes == 0 && w.c.Choose(2) == 1 {
+	maxDrops := 1
+	if w.sc.idleDrops > 0 {
+		maxDrops = w.sc.idleDrops
+	}
+	if w.sc.idleDrop && w.closes < maxDrops && w.c.Choose(2) == 1 {
 		// the environment drops this connection while it is idle, 4 s after the handshake
 		w.moves = append(w.moves, "idle-drop")
 		w.closes++
@@ -290,6 +295,7 @@ func harnesses(r *fw.Run) []fw.HarnessSpec {
 		{name: "drop-during-reconnect", callers: 1, closeConn: true, dropInHandshake: true, fresh: true},
 		{name: "one-caller-sequence", callers: 1, sequential: 2, reorder: true, dup: true},
 		{name: "caller-context-with-later-deadline", callers: 2, withhold: true, callerDeadline: 20 * time.Second},
+		{name: "two-idle-drops-then-request", callers: 1, idle: 20 * time.Second, idleDrop: true, idleDrops: 2, fresh: true},
 	}
 	bounds := map[string]int{"idle-then-slow-answer": 1}
 	for _, sc := range scen {
@@ -444,6 +450,11 @@ func runScenario(c *enum.Ctx, sc scenario) {
 		}
 		if cr.end.Sub(cr.start) > timeout {
 			c.Fail("late-return:"+sc.name, "call returned after %v (timeout %v)", cr.end.Sub(cr.start), timeout)
+		}
+		// (4b) "reconnects by itself within a bounded time and later calls succeed": a call issued 8 s or more after
+		// the last drop of an idle connection (ping period 3 s, immediate re-dial) must find a working connection
+		if cr.err != nil && sc.idleDrop && w.closes > 0 && !w.closedAt.IsZero() && cr.start.Sub(w.closedAt) >= 8*time.Second {
+			c.Fail("call-fails-long-after-drop:"+sc.name, "a call issued %v after the server dropped the idle connection failed: %v", cr.start.Sub(w.closedAt), cr.err)
 		}
 	}
 	// (6) goroutines do not accumulate with completed calls
